@@ -464,6 +464,7 @@ def gen_spec(rng, thorough=False):
             if rng.random() < 0.05: a1['table'] = 'bad_t'
             if rng.random() < 0.05: a1['column'] = 'bad_c'
             if rng.random() < 0.15 and a2['kind'] == 'Optional': a2['nullable'] = rng.choice([True, False])
+            if rng.random() < 0.12 and a2['kind'] == 'Required': a2['nullable'] = True
         elif kind == 'm2m':
             a1['kind'] = 'Set'; a2['kind'] = 'Set'
             for a in (a1, a2):
